@@ -13,10 +13,20 @@ update + save code (library and CLI) with two OpenPGP back ends:
   key only so that verification works and signing fails).
 
 Every run is judged against the statement of C14 (see ``judge``).
+
+Signing failures (part F and every failing-signer point of parts M and W): the signer is made to fail in every way the
+back ends offer (exit status, exit status after partial output, key id without secret key, gpg not installed for the
+signing call / for every call; real GnuPG: public key only, unknown key id).  Besides "the failure is reported" two
+more things are judged: the STATE LEFT ON DISK (``state_after_failure``: the top-level Manifest is still byte-identical,
+or at least still a verifying clear-signed Manifest if it was signed - never an empty or plain file written by the
+failed save) and the FOLLOW-UP (``run_followup``: the next ordinary update+save with a working signer - sign option
+unset for an originally signed tree - is run on what was left behind and judged by the same oracle: it must produce a
+signed top-level Manifest again).
 """
 
 import atexit
 import base64
+import datetime as _dt
 import errno
 import hashlib
 import importlib.util
@@ -29,6 +39,7 @@ import subprocess
 import tempfile
 import types
 
+import gemato.cli
 import gemato.openpgp
 from gemato.manifest import ManifestFile
 from gemato.openpgp import GNUPG, GNUPGCONF, IsolatedGPGEnvironment, SystemGPGEnvironment
@@ -51,9 +62,23 @@ RULE = ('part M, full product: sign option {unset, on, off} x top-level Manifest
         'hash-set/content variants); part W: (top-level file name, compress watermark) in {Manifest, Manifest.gz '
         '(library only)} x {none, 0, 10^6} minus the part-M point x sign option x {signed, unsigned} x signer '
         '{works, exits non-zero} x {flat, nested, nested_gz} x both kinds of save x interface (thorough: x key id x '
-        'contents); back end "scripted" (fake subprocess in gemato.openpgp) takes everything, back end "real" '
-        '(GnuPG, isolated homes) the sub-product signer in {works, secret key missing}; a state is one '
-        'configuration tuple, a transition one update+save execution (plus the verifying re-load); non-trivial = '
+        'contents); part F (signing failures): (failing signer, own entries of the top-level Manifest) in {exits '
+        'non-zero, exits non-zero after partial output, key id without secret key, gpg missing for signing only, gpg '
+        'missing for every call; real GnuPG through the CLI also: -K <file with the public key only>, i.e. an isolated '
+        'home built by gemato itself} x {none, DIST + IGNORE of an existing directory + TIMESTAMP} minus the part-M points '
+        '(old signer classes x none) x (original state, sign option) in {signed, signed by a preceding gemato run} x '
+        '{unset, on} + (unsigned, on) x top-level name {Manifest, Manifest.gz (library only)} x {flat, nested_gz} x '
+        'both kinds of save x interface (quick: without "signed by a preceding gemato run"; thorough: x all layouts x '
+        'all contents x key id); in every case of M, W, F in which a signature is required and the signer fails, '
+        'the state left on disk is judged and ONE follow-up update+save (same interface, same kind of change once '
+        'more, working signer, sign option unset if the top-level Manifest was signed originally, else on) is '
+        'executed and judged as well (quick: in part M only for the contents class "names needing escapes", the '
+        'class parts W and F use); back end "scripted" (fake subprocess in gemato.openpgp) takes everything but the '
+        '-K class, back end "real" '
+        '(GnuPG, isolated homes) the sub-product signer in {works, secret key missing; part F: secret key missing, '
+        'unknown key id}; a state is one '
+        'configuration tuple, a transition one update+save execution (plus the verifying re-load, plus the follow-up '
+        'update+save and its re-load); non-trivial = '
         'the reference gives a definite verdict (not DONT_CARE) for the configuration')
 ASSUMPTIONS = [
     'oracle written from the C14 statement: signed envelope iff (option on) or (option unset and the top-level '
@@ -67,10 +92,24 @@ ASSUMPTIONS = [
     'DONT_CARE; gpg missing for every call with an originally signed Manifest is DONT_CARE (the load itself '
     'fails); a gemato exception in a run that needs no signature or has a working signer is DONT_CARE '
     '(C03/C10 judge completion) and reported by the vacuity self-check',
-    'after a reported signing failure the top-level file may be anything (old content, empty, truncated) except '
-    'a freshly written plain Manifest that describes the updated tree',
-    'one small tree per contents class (6-7 files, nesting 2), one hash set per seed and variant; no TIMESTAMP, '
-    'no profile other than default; PGPyEnvironment (cannot sign) and the CLI -K switch are not driven',
+    'state after a signing failure, from "a signed tree stays signed" and "a signing failure is reported rather '
+    'than silently producing an unsigned Manifest": the file under the original top-level name byte-identical = in '
+    'order; originally signed: a changed file must still be one clear-signed message that verifies (in order if it '
+    'keeps the DIST/IGNORE entries and the TIMESTAMP of the original, else DONT_CARE - C10 judges what an update may '
+    'touch), while empty / plain / absent / malformed / non-verifying is a violation; originally unsigned with the '
+    'sign option on: a changed file that is plain or empty is a violation (an unsigned Manifest was written where '
+    'a signed one was required), anything else DONT_CARE; an intact top-level Manifest with a second top-level '
+    'file left beside it (aborted re-compression) is DONT_CARE',
+    'follow-up after a signing failure: judged by the very same oracle as any other run with want = signed; a '
+    'follow-up that stops with an error after a part-W run (compress watermark: the failed save had already '
+    'renamed sub-Manifests) is DONT_CARE - nothing unsigned is written; sub-Manifests that the failed save had '
+    'already rewritten are not judged (C14 is about the top-level signature)',
+    'gemato.cli sees a frozen clock (it refreshes an existing TIMESTAMP entry with the current time); a signer that '
+    'exits 0 but writes garbage is not modelled (a lying gpg is outside the trust base)',
+    'one small tree per contents class (6-7 files, nesting 2), one hash set per seed and variant; TIMESTAMP / DIST / '
+    'IGNORE entries only in part F, '
+    'no profile other than default; PGPyEnvironment (cannot sign) is not driven, the CLI -K switch only in part F '
+    '(real GnuPG, public key file)',
 ]
 
 TOP = 'Manifest'
@@ -83,6 +122,16 @@ ORIGS = ('signed', 'unsigned', 'signed_noverify')
 KEYIDS = (False, True)                      # explicit key id given?
 SIGNERS_SCRIPTED = ('ok', 'fail', 'missing', 'missing_sign')
 SIGNERS_REAL = ('ok', 'fail')
+# part F (signing failures): every way the signer can be made to fail
+F_SIGNERS_SCRIPTED = ('fail', 'fail_partial', 'badkey', 'missing_sign', 'missing')
+F_SIGNERS_REAL = ('fail', 'badkey')
+F_SIGNERS_REAL_CLI = ('keyfile',)           # CLI only: -K <file with the public key alone> (isolated home made by gemato)
+OLD_FAIL_SIGNERS = ('fail', 'missing', 'missing_sign')      # the failing signers of part M
+EXTRAS = ('none', 'own')                    # top-level Manifest carries DIST + IGNORE + TIMESTAMP entries of its own?
+F_PAIRS = (('signed', None), ('signed', True), ('signed_by_gemato', None), ('signed_by_gemato', True),
+           ('unsigned', True))              # (original state, sign option): exactly those that require a signature
+F_TOPS_LIB = ('Manifest', 'Manifest.gz')
+F_TOPS_CLI = ('Manifest',)                  # the CLI only finds an uncompressed top-level Manifest
 LAYOUTS = ('flat', 'nested', 'nested_gz', 'sibling')
 CONTENTS = ('plain', 'escapes', 'dashy')
 CHANGES = ('edit', 'forced')
@@ -102,6 +151,13 @@ NAMES = {
 FAKE_DEFAULT = 'D0' * 20
 FAKE_OTHER = '0123456789ABCDEF0123456789ABCDEF01234567'
 FAKE_KEYS = (FAKE_DEFAULT, FAKE_OTHER)
+UNKNOWN_KEY = 'DEADBEEF' * 5                # a key id no back end has a secret key for (signer class 'badkey')
+
+OWN_DIST = 'dist-1.tar.gz'
+OWN_DIST_DATA = b'hello'
+OWN_IGNORE = 'ign'
+OWN_TIMESTAMP = '2020-01-02T03:04:05Z'
+FROZEN_NOW = (2021, 2, 3, 4, 5, 6)          # what gemato.cli sees as "now" (it refreshes an existing TIMESTAMP)
 
 
 # ====================================================================== reference envelope syntax
@@ -231,6 +287,15 @@ class _FakeProc(seams.PopenLike):
                 key = argv[argv.index('--local-user') + 1]
             if o.mode == 'fail':
                 rc, err = 2, b'gpg: no default secret key: No secret key\ngpg: [stdin]: clear-sign failed: No secret key\n'
+            elif o.mode == 'fail_partial':
+                # part of an envelope reaches stdout before the signer gives up
+                try:
+                    whole = fake_sign(data.decode('utf8'), FAKE_DEFAULT).encode('utf8')
+                except UnicodeDecodeError:
+                    whole = b''
+                out = whole[:max(len(BEGIN_SIGNED) + 20, len(whole) // 2)]
+                rc = 2
+                err = b'gpg: signing failed: Operation cancelled\ngpg: [stdin]: clear-sign failed: Operation cancelled\n'
             elif key not in FAKE_KEYS:
                 rc, err = 2, b'gpg: skipped "' + key.encode('utf8') + b'": No secret key\n'
             else:
@@ -353,9 +418,12 @@ H = {'homes': None, 'parent': None}
 
 
 def _keydata():
+    if H.get('keydata') is not None:
+        return H['keydata']
     spec = importlib.util.spec_from_file_location('_c14_keydata', '/repo/tests/keydata.py')
     kd = importlib.util.module_from_spec(spec)
     spec.loader.exec_module(kd)
+    H['keydata'] = kd
     return kd
 
 
@@ -534,6 +602,11 @@ def build_tree(case):
                  MSpec('Manifest.files', top_f + sub_f + deep_f)]
     else:
         raise ValueError(lay)
+    if case.get('extras', 'none') == 'own':
+        # entries of the top-level Manifest that no update re-creates: DIST, IGNORE (of an existing directory), TIMESTAMP
+        files[OWN_IGNORE + '/junk'] = b'junk'
+        specs[0].items += [('E', rm.file_entry('DIST', OWN_DIST, OWN_DIST_DATA, hs)), ('E', ('IGNORE', OWN_IGNORE)),
+                           ('E', ('TIMESTAMP', OWN_TIMESTAMP))]
     tree = Tree(files)
     texts = render_layout(tree, specs)
     return tree, texts[top], [s.path for s in specs if s.path != top], hs
@@ -553,7 +626,7 @@ def apply_edit(root, case):
 def case_desc(case):
     return (case['backend'], SIGN_NAME[case['sign']], case['orig'], 'explicit' if case['keyid'] else 'default',
             case['signer'], case['layout'], case['contents'], case['change'], case['iface'],
-            case.get('top', TOP), case.get('wm'), case.get('variant', 0))
+            case.get('top', TOP), case.get('wm'), case.get('variant', 0), case.get('extras', 'none'))
 
 
 def want_signed(case):
@@ -571,7 +644,40 @@ def want_signed(case):
 
 # ====================================================================== driving gemato
 
-def run_update(root, case, keyid, hs, env):
+class _FrozenDatetime(_dt.datetime):
+    """gemato.cli refreshes an existing TIMESTAMP entry with the current time: freeze it (determinism)."""
+
+    @classmethod
+    def utcnow(cls):
+        return _dt.datetime(*FROZEN_NOW)
+
+    @classmethod
+    def now(cls, tz=None):
+        r = _dt.datetime(*FROZEN_NOW, tzinfo=_dt.timezone.utc)
+        return r.astimezone(tz) if tz is not None else r.replace(tzinfo=None)
+
+    @classmethod
+    def today(cls):
+        return cls.now()
+
+
+_FROZEN_MODULE = types.ModuleType('datetime')
+_FROZEN_MODULE.__dict__.update({k: v for k, v in vars(_dt).items() if not k.startswith('__')})
+_FROZEN_MODULE.datetime = _FrozenDatetime
+
+
+class _FrozenClock:
+    def __enter__(self):
+        self.old = gemato.cli.datetime
+        gemato.cli.datetime = _FROZEN_MODULE
+        return self
+
+    def __exit__(self, *a):
+        gemato.cli.datetime = self.old
+        return False
+
+
+def run_update(root, case, keyid, hs, env, keyfile=None):
     """-> observation (gem.call / gem.cli) with o['stage'] for the library."""
     forced = case['change'] == 'forced'
     top = case.get('top', TOP)
@@ -605,12 +711,15 @@ def run_update(root, case, keyid, hs, env):
         argv.append('-S')
     if keyid is not None:
         argv += ['-k', keyid]
+    if keyfile is not None:
+        argv += ['-K', keyfile]
     if forced:
         argv.append('-f')
     if wm is not None:
         argv += ['-c', str(wm)]
     argv.append(root)
-    o = gem.cli(argv)
+    with _FrozenClock():
+        o = gem.cli(argv)
     o['stage'] = None
     return o
 
@@ -685,7 +794,8 @@ def _with_gpg(case, homes, signer, fn):
         fake = FakeGpg(signer)
         with _Installed(fake):
             return fn(SystemGPGEnvironment(), fake), fake
-    env = homes['sec'] if signer == 'ok' else homes['pub']
+    # 'badkey': the secret keys are there, the requested one is not; every other failure: public key only
+    env = homes['sec'] if signer in ('ok', 'badkey') else homes['pub']
     fake = RecGpg()
     old = os.environ.get('GNUPGHOME')
     try:
@@ -730,16 +840,47 @@ def execute(case, scratch, homes):
             ob['prelim'] = gem.brief(po)
         orig_text = data if data is not None else b''
     ob['orig_top'] = orig_text
+    ob['orig_raw'] = read_raw(root, top)
     if case['change'] == 'edit':
         apply_edit(root, case)
 
-    # ---- the run under test
-    ob['run'], ob['fake'] = _with_gpg(
-        case, homes, case['signer'],
-        lambda env, _r: run_update(root, case, keyid, hs, env if case['iface'] == 'lib' else None))
-    # ---- what is on disk now
+    # ---- the run under test ('badkey': a key id nobody has the secret key for)
+    run_keyid = UNKNOWN_KEY if case['signer'] == 'badkey' else keyid
+    keyfile = None
+    old_tmp = tempfile.tempdir
+    if case['signer'] == 'keyfile':
+        # gemato builds its own isolated GnuPG home from this file (public key only): keep that home inside scratch
+        keyfile = os.path.join(scratch, 'c14-public-key.bin')
+        kd = _keydata()
+        with open(keyfile, 'wb') as f:
+            f.write(kd.PUBLIC_KEY + kd.UID + kd.PUBLIC_KEY_SIG)
+        tempfile.tempdir = scratch
+    try:
+        ob['run'], ob['fake'] = _with_gpg(
+            case, homes, case['signer'],
+            lambda env, _r: run_update(root, case, run_keyid, hs, env if case['iface'] == 'lib' else None, keyfile))
+    finally:
+        tempfile.tempdir = old_tmp
+    ob['subs_expected'] = subs
+    observe_disk(ob, root, top)
+    return ob
+
+
+def read_raw(root, name):
+    try:
+        with open(os.path.join(root, name), 'rb') as f:
+            return f.read()
+    except FileNotFoundError:
+        return None
+
+
+def observe_disk(ob, root, top):
+    """What is on disk now: the top-level Manifest (as found, and the raw bytes under its original name) and every
+    other Manifest file."""
     ob['top_name'], ob['top'], problem = read_top(root)
     ob['top_class'], ob['top_split'] = classify_top(ob['top'], problem)
+    ob['after_raw'] = read_raw(root, top)
+    ob['top_others'] = [n for n in TOP_NAMES if n != top and os.path.lexists(os.path.join(root, n))]
     sub_texts = {}
     for dp, _dn, fns in os.walk(root):
         for fn in fns:
@@ -754,8 +895,114 @@ def execute(case, scratch, homes):
             except Exception as e:          # noqa: BLE001 - reported by judge
                 sub_texts[rel] = e
     ob['subs'] = sub_texts
-    ob['subs_expected'] = subs
     return ob
+
+
+def run_followup(case, ob, homes):
+    """The next ordinary update+save on the tree a failed signing run left behind: same interface, same kind of
+    change, same key id selection, WORKING signer; sign option unset when the top-level Manifest was signed
+    originally (a signed tree stays signed), on otherwise (the request is repeated).
+    -> (follow-up case, observation) or (None, reason why it cannot be run)"""
+    root = ob['root']
+    top = case.get('top', TOP)
+    if not os.path.lexists(os.path.join(root, top)):
+        others = [n for n in TOP_NAMES if os.path.lexists(os.path.join(root, n))]
+        if len(others) != 1:
+            return None, 'no top-level Manifest left to update'
+        top = others[0]
+    if case['iface'] == 'cli' and top != TOP:
+        return None, 'the CLI cannot find the top-level Manifest that is left'
+    was_signed = case['orig'] != 'unsigned'
+    case2 = dict(case, signer='ok', sign=None if was_signed else True, orig='signed' if was_signed else 'unsigned',
+                 top=top, followup=True)
+    _n, before, _p = read_top(root)
+    if case['change'] == 'edit':
+        apply_edit(root, case)
+    ob2 = {'root': root, 'exp_key': ob['exp_key'], 'keyid': ob['keyid'], 'hs': ob['hs'], 'prelim': None,
+           'orig_top': before, 'orig_raw': read_raw(root, top), 'subs_expected': ob['subs_expected']}
+    ob2['run'], ob2['fake'] = _with_gpg(
+        case2, homes, 'ok',
+        lambda env, _r: run_update(root, case2, ob['keyid'], ob['hs'], env if case['iface'] == 'lib' else None))
+    observe_disk(ob2, root, top)
+    return case2, ob2
+
+
+FAIL_CLASS = {'ok': None, 'fail': 'exit_nonzero', 'fail_partial': 'exit_nonzero_partial_output', 'badkey': 'unknown_key',
+              'missing': 'binary_missing', 'missing_sign': 'binary_missing', 'keyfile': 'exit_nonzero_keyfile_home'}
+
+
+def own_entries(text):
+    """Body of a Manifest -> (DIST and IGNORE entries, has TIMESTAMP) or None if the reference cannot read it."""
+    st, ents = rm.parse(text)
+    if st != 'ok':
+        return None
+    return frozenset(e for e in ents if e[0] in ('DIST', 'IGNORE')), any(e[0] == 'TIMESTAMP' for e in ents)
+
+
+def _describe(data):
+    cls, sp = classify_top(data, None)
+    if cls not in ('signed', 'plain'):
+        return cls
+    own = own_entries(sp[1])
+    st, ents = rm.parse(sp[1])
+    n = len(ents) if st == 'ok' else '?'
+    return (f'{len(data)} bytes, {"clear-signed" if cls == "signed" else "plain"}, {n} entries'
+            + (f' incl. {len(own[0])} DIST/IGNORE{" + TIMESTAMP" if own[1] else ""}' if own and (own[0] or own[1]) else ''))
+
+
+def state_after_failure(case, ob, homes):
+    """The top-level Manifest a failed signing run left behind, judged by C14: a signed tree stays signed, and no
+    unsigned Manifest is produced where a signature is required.
+    -> (state label, 'ok' | 'violation' | 'dontcare', explanation)"""
+    was_signed = case['orig'] != 'unsigned'
+    if ob['after_raw'] is not None and ob['after_raw'] == ob['orig_raw']:
+        if ob['top_others']:
+            return ('untouched+stray', 'dontcare',
+                    f'the top-level Manifest is byte-identical but a second top-level file {ob["top_others"]} '
+                    f'({[_describe_file(ob["root"], n) for n in ob["top_others"]]}) was left beside it')
+        return 'untouched', 'ok', ''
+    cls = ob['top_class']
+    if cls == 'signed':
+        if case['backend'] == 'scripted':
+            good = fake_verify(ob['top'].decode('utf8')) is not None
+        else:
+            good = real_decrypt(homes['sec'].home, ob['top'])[0]
+        if not good:
+            if was_signed:
+                return ('signed_bad', 'violation', 'the signed top-level Manifest was replaced by an envelope whose '
+                        'signature does not verify')
+            return 'signed_bad', 'dontcare', 'an envelope that does not verify replaced the unsigned top-level Manifest'
+        if not was_signed:
+            return 'signed', 'dontcare', 'a verifying signed Manifest appeared although the signer failed'
+        o_sp = classify_top(ob['orig_top'], None)[1]
+        before = own_entries(o_sp[1]) if o_sp and o_sp[0] == 'signed' else None
+        now = own_entries(ob['top_split'][1])
+        if before is None or now is None:
+            return 'signed', 'dontcare', 'changed but still signed top-level Manifest, entries undecided'
+        if before[0] <= now[0] and before[1] == now[1]:
+            return 'signed', 'ok', ''
+        return ('signed_lost_entries', 'dontcare', 'still signed, but DIST/IGNORE/TIMESTAMP entries of the top-level '
+                'Manifest were lost (C10 judges what an update may touch)')
+    what = {'empty': 'an EMPTY file (0 bytes: signature and all entries gone)',
+            'plain': 'a plain unsigned Manifest', 'absent': 'nothing (the file is gone)'}.get(cls, f'garbage ({cls})')
+    if was_signed:
+        return cls, 'violation', f'the clear-signed top-level Manifest was replaced by {what}'
+    if cls in ('plain', 'empty'):
+        return cls, 'violation', (f'a signature was required, yet the unsigned top-level Manifest was overwritten with '
+                                  f'{what}')
+    return cls, 'dontcare', f'the unsigned top-level Manifest was replaced by {what}'
+
+
+def _describe_file(root, name):
+    raw = read_raw(root, name)
+    if raw is None:
+        return 'absent'
+    if raw == b'':
+        return 'empty'
+    try:
+        return _describe(decompress(raw, comp_of(name)))
+    except Exception:                   # noqa: BLE001 - description only
+        return f'{len(raw)} undecodable bytes'
 
 
 def judge(case, ob, homes):
@@ -814,7 +1061,7 @@ def judge(case, ob, homes):
         return viols, dc, labels, cnt
 
     fake = ob['fake']
-    fail_class = {'ok': None, 'fail': 'exit_nonzero'}.get(signer, 'binary_missing')
+    fail_class = FAIL_CLASS[signer]
     cnt[f'{backend}_clearsign_attempts'] = fake.sign_attempts
 
     def plain_describes_tree():
@@ -830,8 +1077,9 @@ def judge(case, ob, homes):
 
     # ---- a signature is required but the signer is broken: error, and no unsigned new Manifest
     if want and sign_broken and not (done and fake.sign_attempts == 0):
-        exp_exc = 'OpenPGPSigningFailure' if signer == 'fail' else 'OpenPGPNoImplementation'
-        after = 'untouched' if ob['top'] == ob['orig_top'] else ob['top_class']
+        exp_exc = 'OpenPGPNoImplementation' if fail_class == 'binary_missing' else 'OpenPGPSigningFailure'
+        state, s_verdict, s_why = state_after_failure(case, ob, homes)
+        after = state
         reported = None
         if iface == 'lib':
             if r['kind'] == 'exc' and r.get('class') == 'gemato':
@@ -861,8 +1109,14 @@ def judge(case, ob, homes):
                 labels.append(f'{pre}/signfail:{signer}/cli-raw:{r["exc"]}/top_after={after}')
         # the disk must not hold a freshly written plain Manifest describing the updated tree
         fresh_plain = False
-        if ob['top'] != ob['orig_top']:
+        if not state.startswith('untouched'):
             fresh_plain = plain_describes_tree()
+        was = 'signed' if case['orig'] != 'unsigned' else 'unsigned'
+        cnt[f'signfail_state_judged:{was}'] = 1
+        cnt[f'signfail_state_judged:top={case.get("top", TOP)}'] = 1
+        cnt[f'signfail_state_judged:{"nested" if ob["subs_expected"] else "flat"}'] = 1
+        cnt[f'signfail_state_judged:extras={case.get("extras", "none")}'] = 1
+        cnt[f'signfail_state_judged:{backend}/{iface}/{fail_class}'] = 1
         if reported is False:
             labels.append(f'{pre}/signfail:{signer}/NOT-REPORTED/top_after={after}')
             bad({'check': 'signing_failure_not_reported', 'failure': fail_class},
@@ -876,7 +1130,63 @@ def judge(case, ob, homes):
                 f'unsigned Manifest that describes the updated tree: {_show(ob["top"])}')
         elif fresh_plain is None and dc is None:
             dc = 'plain top-level Manifest after signing failure, tree verdict undecided'
+        # the state left on disk: the failed save must not have replaced the top-level Manifest by something unsigned
+        if s_verdict == 'violation' and not (fresh_plain and reported is not False):
+            how = ('exits non-zero' if fail_class.startswith('exit_nonzero') else
+                   'has no secret key for the requested key id' if fail_class == 'unknown_key' else 'cannot be started')
+            check = ('signed_top_level_destroyed_by_failed_signing' if was == 'signed'
+                     else 'unsigned_top_level_written_on_signing_failure')
+            bad({'check': check, 'left': state},
+                f'sign option {SIGN_NAME[case["sign"]]}, top-level Manifest {case.get("top", TOP)} originally '
+                f'{case["orig"]} ({_describe(ob["orig_top"])}); the signer {how} and update+save ended with '
+                f'{gem.brief(r)}: {s_why}; top-level Manifest now: {_show(ob["top"])}')
+        elif s_verdict == 'dontcare':
+            labels.append(f'{pre}/signfail-state-undecided/{state}')
+            cnt['signfail_state_dontcare'] = 1
+            if dc is None and not viols:
+                dc = 'state after the signing failure: ' + s_why
+        elif s_verdict == 'ok':
+            cnt['signfail_state_ok:' + state] = 1
         cnt['signfail_top_after:' + after] = 1
+
+        # the follow-up: the next ordinary update+save with a working signer must yield a signed top-level Manifest
+        if case.get('no_followup'):
+            cnt['followup_left_to_thorough_tier'] = 1
+            return viols, dc, labels, cnt
+        case2, ob2 = run_followup(case, ob, homes)
+        if case2 is None:
+            labels.append(f'{pre}/signfail-followup/not-run/{ob2}')
+            cnt['followup_not_run'] = 1
+            if s_verdict == 'ok':
+                cnt['followup_missing_after_good_state'] = 1
+            return viols, dc, labels, cnt
+        cnt['followup_runs'] = 1
+        v2, dc2, labels2, cnt2 = judge(case2, ob2, homes)
+        for lb in labels2:
+            labels.append('followup:' + lb)
+        for k, n in cnt2.items():
+            if k == 'reloads':
+                cnt['reloads'] = cnt.get('reloads', 0) + n
+            else:
+                cnt['followup:' + k] = cnt.get('followup:' + k, 0) + n
+        for sig2, msg2 in v2:
+            bad({'check': 'followup_after_signing_failure', 'originally': was, 'followup': sig2},
+                f'after the reported signing failure ({fail_class}; top-level Manifest left {state}) the next update+save '
+                f'(working signer, sign option {SIGN_NAME[case2["sign"]]}, top-level Manifest originally {case["orig"]}) '
+                f'does not satisfy C14: {msg2}')
+        if dc2:
+            labels.append(f'{pre}/signfail-followup/undecided')
+            cnt['followup_dontcare'] = 1
+            if case.get('wm') is not None and not completed(ob2['run']):
+                # the aborted save may already have renamed (re-compressed) sub-Manifests which the old top-level
+                # Manifest still lists under their old names: the next update stops with an error, nothing is
+                # written unsigned - C14 is silent about that
+                cnt['followup_stopped_with_error_after_watermark_renames'] = 1
+            elif s_verdict == 'ok':
+                cnt['followup_undecided_after_good_state'] = 1
+        elif not v2:
+            cnt['followup_ok'] = 1
+            cnt[f'followup_ok:{backend}/{iface}'] = 1
         return viols, dc, labels, cnt
 
     # ---- from here on the run has everything it needs (or never asked the signer): it should complete
@@ -1051,7 +1361,7 @@ def check_case(case, scratch, homes, stats=None):
     viols, dc, labels, cnt = judge(case, ob, homes)
     if stats is not None:
         stats.evaluations += 1
-        stats.transitions += 1 + cnt.pop('reloads', 0)
+        stats.transitions += 1 + cnt.pop('reloads', 0) + cnt.get('followup_runs', 0)
         for lb in labels:
             stats.outcomes[lb] += 1
         for k, n in cnt.items():
@@ -1092,6 +1402,38 @@ def signers_for(backend):
     return SIGNERS_SCRIPTED if backend == 'scripted' else SIGNERS_REAL
 
 
+def f_signers(backend, iface):
+    if backend == 'scripted':
+        return F_SIGNERS_SCRIPTED
+    return F_SIGNERS_REAL + (F_SIGNERS_REAL_CLI if iface == 'cli' else ())
+
+
+def f_points(backend, iface):
+    """part F: (failing signer, entries of the top-level Manifest's own) minus what part M has already"""
+    return [(sg, ex) for sg in f_signers(backend, iface) for ex in EXTRAS
+            if not (sg in OLD_FAIL_SIGNERS and ex == 'none')]
+
+
+def f_tops(iface):
+    return F_TOPS_LIB if iface == 'lib' else F_TOPS_CLI
+
+
+def f_dims(tier):
+    """-> (layouts, contents, key ids) of part F"""
+    if tier == 'quick':
+        return ('flat', 'nested_gz'), ('escapes',), (False,)
+    return layouts_for(tier), CONTENTS, KEYIDS
+
+
+def f_pairs(tier):
+    return tuple(p for p in F_PAIRS if p[0] != 'signed_by_gemato') if tier == 'quick' else F_PAIRS
+
+
+def m_followup(tier, contents):
+    """Is the follow-up update run after a signing failure in part M?  (parts W and F: always)"""
+    return tier != 'quick' or contents == 'escapes'
+
+
 def shards(tier, seed):
     out = []
     for be in ('real', 'scripted'):
@@ -1100,6 +1442,9 @@ def shards(tier, seed):
         for ifc in IFACES:
             for (top, wm), sg in itertools.product(W_TOPWM_LIB if ifc == 'lib' else W_TOPWM_CLI, SIGNS):
                 out.append(('W', be, top, wm, sg, ifc, 0))
+        for ifc in IFACES:
+            for (sg, ex), top, la in itertools.product(f_points(be, ifc), f_tops(ifc), f_dims(tier)[0]):
+                out.append(('F', be, sg, ex, top, ifc, la))
     # interleave so that the real-gpg shards (one shared agent) are spread over the run
     a = [s for s in out if s[1] == 'real']
     b = [s for s in out if s[1] != 'real']
@@ -1118,7 +1463,15 @@ def shard_cases(spec, tier, seed):
         for orig, kid, signer, change in itertools.product(origs_for(ifc), KEYIDS, signers_for(backend), CHANGES):
             yield {'backend': backend, 'layout': la, 'contents': co, 'sign': sg, 'iface': ifc, 'orig': orig,
                    'keyid': kid, 'signer': signer, 'change': change, 'seed': seed, 'variant': va,
-                   'top': TOP, 'wm': None}
+                   'top': TOP, 'wm': None, 'no_followup': not m_followup(tier, co)}
+        return
+    if spec[0] == 'F':
+        _f, backend, signer, ex, top, ifc, la = spec
+        _las, cos, kids = f_dims(tier)
+        for (orig, sg), co, kid, change in itertools.product(f_pairs(tier), cos, kids, CHANGES):
+            yield {'backend': backend, 'layout': la, 'contents': co, 'sign': sg, 'iface': ifc, 'orig': orig,
+                   'keyid': kid, 'signer': signer, 'change': change, 'seed': seed, 'variant': 0,
+                   'top': top, 'wm': None, 'extras': ex}
         return
     _w, backend, top, wm, sg, ifc, va = spec
     kids = (False,) if tier == 'quick' else KEYIDS
@@ -1138,15 +1491,20 @@ def expected_case_count(tier):
             n += (len(W_TOPWM_LIB if ifc == 'lib' else W_TOPWM_CLI) * len(SIGNS) * len(W_LAYOUTS)
                   * (1 if tier == 'quick' else len(CONTENTS)) * len(W_ORIGS) * (1 if tier == 'quick' else len(KEYIDS))
                   * len(W_SIGNERS) * len(CHANGES))
+            las, cos, kids = f_dims(tier)
+            n += (len(f_points(be, ifc)) * len(f_tops(ifc)) * len(f_pairs(tier)) * len(las) * len(cos) * len(kids)
+                  * len(CHANGES))
     return n
 
 
 SAMPLE_DESCS = {
-    ('scripted', 'unset', 'signed', 'explicit', 'ok', 'nested_gz', 'dashy', 'edit', 'lib', 'Manifest', None, 0),
-    ('scripted', 'on', 'unsigned', 'default', 'fail', 'sibling', 'escapes', 'forced', 'cli', 'Manifest', None, 0),
-    ('real', 'unset', 'signed', 'default', 'ok', 'nested', 'escapes', 'edit', 'cli', 'Manifest', None, 0),
-    ('real', 'on', 'unsigned', 'explicit', 'fail', 'flat', 'plain', 'edit', 'lib', 'Manifest', None, 0),
-    ('scripted', 'unset', 'signed', 'default', 'ok', 'nested', 'escapes', 'edit', 'lib', 'Manifest.gz', BIG, 0),
+    ('scripted', 'unset', 'signed', 'explicit', 'ok', 'nested_gz', 'dashy', 'edit', 'lib', 'Manifest', None, 0, 'none'),
+    ('scripted', 'on', 'unsigned', 'default', 'fail', 'sibling', 'escapes', 'forced', 'cli', 'Manifest', None, 0, 'none'),
+    ('real', 'unset', 'signed', 'default', 'ok', 'nested', 'escapes', 'edit', 'cli', 'Manifest', None, 0, 'none'),
+    ('real', 'on', 'unsigned', 'explicit', 'fail', 'flat', 'plain', 'edit', 'lib', 'Manifest', None, 0, 'none'),
+    ('scripted', 'unset', 'signed', 'default', 'ok', 'nested', 'escapes', 'edit', 'lib', 'Manifest.gz', BIG, 0, 'none'),
+    ('scripted', 'unset', 'signed', 'default', 'badkey', 'nested_gz', 'escapes', 'edit', 'cli', 'Manifest', None, 0, 'own'),
+    ('real', 'on', 'unsigned', 'default', 'fail', 'flat', 'escapes', 'forced', 'lib', 'Manifest.gz', None, 0, 'own'),
 }
 
 
@@ -1189,7 +1547,7 @@ def finish(total, tier):
                     f'the stated product has {want}')
 
     def seen(*parts):
-        return sum(n for k, n in oc.items() if all(p in k for p in parts))
+        return sum(n for k, n in oc.items() if not k.startswith('followup:') and all(p in k for p in parts))
     for be in ('scripted', 'real'):
         if not c.get(f'{be}_signer_input_equals_written'):
             errs.append(f'vacuity: counter {be}_signer_input_equals_written is zero')
@@ -1222,13 +1580,49 @@ def finish(total, tier):
                     f'complete (see outcome classes */unexpected_abort/*): not judged')
     if total.compared < total.evaluations // 2:
         errs.append('vacuity: most cases are DONT_CARE')
+    # ---- signing failures: state left on disk and follow-up
+    for be in ('scripted', 'real'):
+        for ifc in IFACES:
+            for sg in f_signers(be, ifc):
+                if not seen(f'{be}/{ifc}/signfail:{sg}/'):
+                    errs.append(f'vacuity: no {be}/{ifc} run with signer class {sg} was judged')
+            for fc in sorted({FAIL_CLASS[sg] for sg in f_signers(be, ifc)}):
+                if not c.get(f'signfail_state_judged:{be}/{ifc}/{fc}'):
+                    errs.append(f'vacuity: state after a {be}/{ifc} signing failure of class {fc} never judged')
+    for k in ('signed', 'unsigned', 'top=Manifest', 'top=Manifest.gz', 'flat', 'nested', 'extras=none', 'extras=own'):
+        if not c.get('signfail_state_judged:' + k):
+            errs.append(f'vacuity: no state after a signing failure judged for {k}')
+    if not c.get('followup_runs'):
+        errs.append('vacuity: no follow-up update after a signing failure was run')
+    new_checks = ('signed_top_level_destroyed_by_failed_signing', 'unsigned_top_level_written_on_signing_failure',
+                  'followup_after_signing_failure')
+    if not any(v['sig'].get('check') in new_checks for v in total.violations):
+        # on code that keeps the top-level Manifest the positive outcomes must all have been seen
+        for k in ('signfail_state_ok:untouched', 'followup_ok', 'followup:scripted_reload_verified',
+                  'followup:real_reload_verified', 'followup:tree_described',
+                  'followup:scripted_key_explicit_confirmed', 'followup:scripted_key_default_confirmed'):
+            if not c.get(k):
+                errs.append(f'vacuity: counter {k} is zero')
+        for be in ('scripted', 'real'):
+            for ifc in IFACES:
+                if not c.get(f'followup_ok:{be}/{ifc}'):
+                    errs.append(f'vacuity: no {be}/{ifc} follow-up update was judged and found in order')
+        for k in ('followup_missing_after_good_state', 'followup_undecided_after_good_state'):
+            if c.get(k):
+                errs.append(f'{c[k]} follow-up updates after a signing failure that left the top-level Manifest intact '
+                            f'could not be run or judged ({k}; see outcome classes followup:*)')
     after = {k.split(':', 1)[1]: n for k, n in c.items() if k.startswith('signfail_top_after:')}
     if after:
         total.notes.append(
-            'observed, not a violation of C14 as stated: after a REPORTED signing failure the top-level Manifest '
-            f'file was left {after} (runs by state); save_manifest opens (truncates) the file before the signer '
-            'runs, so a previously valid signed top-level Manifest is destroyed (0 bytes) while already saved '
-            'sub-Manifests keep their new content')
+            f'after a signing failure the top-level Manifest file was left {after} (runs by state; every state other '
+            'than "untouched" / still signed is judged a violation, see ASSUMPTIONS); sub-Manifests saved before the '
+            'top-level Manifest keep their new content either way (not judged here)')
+    if c.get('followup_stopped_with_error_after_watermark_renames'):
+        total.notes.append(
+            f'{c["followup_stopped_with_error_after_watermark_renames"]} follow-up updates (part W: compress watermark '
+            'given) did not complete: the save that failed to sign had already renamed sub-Manifests, the next update '
+            'stops with an error on the stale MANIFEST entries (see outcome classes followup:*/unexpected_abort/*); '
+            'nothing unsigned is written, C14 does not decide these')
     return errs
 
 
